@@ -279,6 +279,17 @@ class Declaration(TerminalElement):
         return f"<!{self.data}>"
 
 
+class MarkedSection(TerminalElement):
+    """Represent marked sections, like `<![CDATA[text]]>` or `<![if IE]>`"""
+
+    def render(self, **kwargs) -> str:  # type: ignore[override]
+        keyword = self.data.split("[", 1)[0].strip().lower()
+        if keyword in {"temp", "cdata", "ignore", "include", "rcdata"}:
+            # these are closed by `]]>`, the others (`if`, `else`, `endif`) by `]>`
+            return f"<![{self.data}]]>"
+        return f"<![{self.data}]>"
+
+
 class Comment(TerminalElement):
     """Represent HTML comments"""
 
@@ -435,7 +446,7 @@ class HtmlToAst(HTMLParser):
         self.struct.nest_terminal(Declaration, decl)
 
     def unknown_decl(self, decl: str):
-        self.struct.nest_terminal(Declaration, decl)
+        self.struct.nest_terminal(MarkedSection, decl)
 
     def handle_charref(self, data: str):
         self.struct.nest_terminal(Char, data)
